@@ -327,6 +327,7 @@ impl Monitor for C13 {
         let f = g.bytes;
         let label = g.recipe;
         ctx.item_bytes(&label, &f);
+        ctx.phase("nonverdict: building the container (C01's verdict)");
         let container = match cur::expand(&f) {
             Out::Ok(c) => c,
             _ => {
@@ -342,6 +343,7 @@ impl Monitor for C13 {
                 return;
             }
         }
+        ctx.phase("verdict: reconstruction under instrumented I/O");
         let parsed = cparse::parse(&container).ok();
         if let Some(p) = &parsed {
             for c in &p.chunks {
